@@ -384,3 +384,13 @@ Definition import_distr (g : distr_genesis) : distr_state :=
   mkDistr (dg_treasury g) (dg_snap_period g) (fold_left set_vote (dg_votes g) []) (Some (dg_proposer g)) (dg_year g) (dg_periodic g).
 Definition reimport_distr (s : distr_state) : outcome distr_state :=
   match export_distr s with Ok g => Ok (import_distr g) | Err e => Err e | Panic m => Panic m end.
+
+(* x/upgrade next plan: InitGenesis either stores it as exported, or (SaveNextPlan) refuses -- the error
+   is ignored -- a plan whose upgrade time is not after the genesis block time.  Which of the two the code
+   does is read from the tree ([upgrade_import_checks_time]). *)
+Definition upgrade_import_checks_time : bool := (init_calls "upgrade" "SaveNextPlan" && negb (init_calls "upgrade" "RestoreNextPlan"))%bool.
+Definition import_next_plan (time_checked : bool) (now : Z) (plan : option Z (* upgrade time *)) : option Z :=
+  match plan with
+  | Some t => if (time_checked && (t <=? now))%bool then None else Some t
+  | None => None
+  end.
